@@ -2686,3 +2686,10 @@ mod tests {
         );
     }
 }
+
+/// Verification harness bodies with access to this module's private items (feature `verif`).
+#[cfg(feature = "verif")]
+#[doc(hidden)]
+#[allow(missing_docs, missing_debug_implementations, dead_code, unused)]
+#[path = "/verif/kani/incrate/sync.rs"]
+pub mod verif_incrate;
